@@ -152,6 +152,9 @@ func c03Prior(name string) fsmodel.Tree {
 	switch name {
 	case "a-symlink-out":
 		return fsmodel.Tree{{Path: "a", Kind: fsmodel.Symlink, Perm: 0777, Mtime: T, Link: "/outside/d"}}
+	case "a-symlink-sibling":
+		// a link to the sibling directory whose path begins with the destination's path
+		return fsmodel.Tree{{Path: "a", Kind: fsmodel.Symlink, Perm: 0777, Mtime: T, Link: "../dest2"}}
 	case "a-dir-with-symlink":
 		return fsmodel.Tree{{Path: "a", Kind: fsmodel.Dir, Perm: 0755, Mtime: T}, {Path: "a/b", Kind: fsmodel.Symlink, Perm: 0777, Mtime: T, Link: "/outside/f"},
 			{Path: "a/c", Kind: fsmodel.Symlink, Perm: 0777, Mtime: T, Link: "../" + relOutD}}
@@ -389,6 +392,14 @@ func outsideState(root string, linkedIn ...string) (string, error) {
 	if err != nil {
 		return "", err
 	}
+	// the destination's sibling whose path has the destination's path as a string prefix (dest -> dest2)
+	sib, err := fsmodel.Snapshot(filepath.Join(root, "p1/p2/dest2"))
+	if err != nil {
+		return "", err
+	}
+	for _, n := range sib {
+		fmt.Fprintf(&sb, "dest2/%s ino=%d ctime=%d nlink=%d\n", n.String(), n.Ino, n.Ctime, n.Nlink)
+	}
 	for _, n := range snap {
 		loose := false
 		for _, l := range linkedIn {
@@ -431,7 +442,10 @@ func buildSandbox(root string) error {
 		{Path: "outside/d", Kind: fsmodel.Dir, Perm: 0700, Mtime: fsmodel.T0}, {Path: "outside/d/g", Kind: fsmodel.File, Perm: 0600, Mtime: fsmodel.T0, Data: []byte("sentinel-g")},
 		{Path: "outside/d/b", Kind: fsmodel.File, Perm: 0600, Mtime: fsmodel.T0, Data: []byte("sentinel-b")},
 		{Path: "p1", Kind: fsmodel.Dir, Perm: 0711, Mtime: fsmodel.T0, UID: 11, GID: 11}, {Path: "p1/p2", Kind: fsmodel.Dir, Perm: 0751, Mtime: fsmodel.T0, UID: 12, GID: 12},
-		{Path: "p1/p2/dest", Kind: fsmodel.Dir, Perm: 0755, Mtime: fsmodel.T0, UID: 13, GID: 13}, {Path: "p1/p2/sibling", Kind: fsmodel.File, Perm: 0600, Mtime: fsmodel.T0, Data: []byte("sib")}}
+		{Path: "p1/p2/dest", Kind: fsmodel.Dir, Perm: 0755, Mtime: fsmodel.T0, UID: 13, GID: 13}, {Path: "p1/p2/sibling", Kind: fsmodel.File, Perm: 0600, Mtime: fsmodel.T0, Data: []byte("sib")},
+		// a sibling of the destination named like it plus one character: "is inside dest" decided by string prefix says yes
+		{Path: "p1/p2/dest2", Kind: fsmodel.Dir, Perm: 0700, Mtime: fsmodel.T0}, {Path: "p1/p2/dest2/f", Kind: fsmodel.File, Perm: 0600, Mtime: fsmodel.T0, Data: []byte("sib-f")},
+		{Path: "p1/p2/dest2/g", Kind: fsmodel.File, Perm: 0600, Mtime: fsmodel.T0, Data: []byte("sib-g")}, {Path: "p1/p2/dest2/b", Kind: fsmodel.File, Perm: 0600, Mtime: fsmodel.T0, Data: []byte("sib-b")}}
 	return fsmodel.Materialize(out, root)
 }
 
@@ -858,7 +872,7 @@ func childC03(args []string) int {
 	// a hard link whose source lies BELOW a path the selector leaves alone, into destinations where that path is a link
 	// to an outside directory holding an entry of that name: [a dir; a/X file; b -> hard link of a/X]
 	for _, child := range []string{"a/f", "a/g", "a/b"} {
-		for _, pr := range []string{"a-symlink-out", "a-chain-out", "a-chain-rel"} {
+		for _, pr := range []string{"a-symlink-out", "a-chain-out", "a-chain-rel", "a-symlink-sibling"} {
 			for _, op := range []string{"meta-merge-hide-a-tree", "merge-filter-a", "meta-merge-hide-a", "meta-merge"} {
 				i++
 				if i%n != shard || i < start {
@@ -882,7 +896,10 @@ func childC03(args []string) int {
 	// merge receives in which the caller's own selector / filter leaves the path a alone, into destinations where a
 	// is a link to outside: every script of length <=2
 	for _, sc := range c03Scripts(tier, 2) {
-		for _, pr := range []string{"a-symlink-out", "a-chain-out", "dest-missing", "dest-dangling", "two-dirs", "a-dir-with-symlink"} {
+		for _, pr := range []string{"a-symlink-out", "a-chain-out", "dest-missing", "dest-dangling", "two-dirs", "a-dir-with-symlink", "a-symlink-sibling"} {
+			if pr == "a-symlink-sibling" && tier != "thorough" {
+				continue
+			}
 			// (and with a selector that selects everything: a selected directory and what is below it)
 			for _, op := range []string{"meta-merge-hide-a", "merge-filter-a", "meta-merge", "meta", "merge", "", "diffnone"} {
 				// (comparison switched off: only for the destinations with directories that the stream replaces)
